@@ -112,6 +112,7 @@ type room struct {
 	tokens     map[string]string // token -> group, tokens created through the harness
 	desc       map[string]any    // the definition both groups were created with
 	flaps      int
+	redefs     int
 	hierarchy  bool
 	joinTokens []mToken // tokens a client may join with (made in the store at the start of the case)
 	tokenJoins int
@@ -275,6 +276,17 @@ func newRoom(t *rapid.T, or string, nclients int) *room {
 
 func (r *room) checkQuiescent(step string) {
 	t := r.t
+	// a token is what was stored, whatever its bearers went through (C09: it grants exactly its permission list)
+	for _, tk := range r.joinTokens {
+		st, _, err := token.Get(tk.name)
+		if err != nil {
+			t.Fatalf("C16/C09 after %s: token %s has disappeared from the store: %v", step, tk.name, err)
+		}
+		if fmt.Sprint(st.Permissions) != fmt.Sprint(tk.perms) {
+			t.Fatalf("C09 after %s: the stored token %s now grants %q, it was made with %q (nobody edited it) [%s]", step, tk.name, st.Permissions, tk.perms,
+				strings.Join(r.st.ops[max(0, len(r.st.ops)-6):], " ; "))
+		}
+	}
 	for _, sc := range r.s.cs {
 		gname := r.where[sc.id]
 		// a terminated connection is never a member of anything
@@ -1296,6 +1308,29 @@ func (r *room) allTokens() map[string]string {
 	return res
 }
 
+// doRedefine: the administrator edits the definitions while the groups are in use: another max-clients (a value of
+// the same length -- the file keeps its size and differs in modification time only -- or a longer/absent one).
+// Every later join is judged by the new definition.
+func (r *room) doRedefine() {
+	t := r.t
+	nv := rapid.SampledFrom([]int{2, 3, 4, 2, 3, 4, 0, 12}).Draw(t, "newMaxClients")
+	if nv == r.cfg.maxClients {
+		return
+	}
+	time.Sleep(15 * time.Millisecond) // a later modification time, whatever the clock's granularity
+	if nv == 0 {
+		delete(r.desc, "max-clients")
+	} else {
+		r.desc["max-clients"] = nv
+	}
+	for _, gn := range r.gnames {
+		writeGroupFile(gn, r.desc)
+	}
+	r.opf("max-clients %d -> %d in both definitions", r.cfg.maxClients, nv)
+	r.cfg.maxClients = nv
+	r.redefs++
+}
+
 // doFlap: the definition file of a group that has members is, for a moment, unreadable (an in-place edit caught
 // half-way, a delete followed by a re-upload) while something asks for the group (a status page, a join attempt);
 // then it is back, unchanged in content.  The members, the lock and everything the admission rules look at stay.
@@ -1507,6 +1542,8 @@ func (r *room) run(weights intentWeights, maxSteps int) {
 			r.doMisc(sc)
 		case "flap":
 			r.doFlap()
+		case "redefine":
+			r.doRedefine()
 		}
 		for _, o := range r.s.cs {
 			o.drain()
@@ -1556,6 +1593,7 @@ func (r *room) classes(rec *verifkit.Rec) {
 	rec.ClassN("privileged_attempts_by_non_members", r.st.refusedNonMember)
 	rec.ClassN("token_operations", r.st.tokenOps)
 	rec.ClassN("definition_unreadable_for_a_moment_with_members_present", r.flaps)
+	rec.ClassN("definitions_edited_while_in_use", r.redefs)
 	rec.ClassN("token_listings_in_a_subgroup_whose_parent_has_a_hierarchical_token", r.st.listInSubgroup)
 	rec.ClassN("token_listings_answered", r.st.listAnswered)
 	if r.hierarchy {
